@@ -10,9 +10,9 @@ NH = 3
 END_OK = "end|live=0|leak=0"
 # One switch per proposed patch under docs/ (the model is the code AS PATCHED; while a patch is not in the tree under
 # test the cases that need it are not generated).  Set to True once the patch is committed in /repo.
-PATCHED_SET_NOINIT_COPY = False   # docs/C05_set_noinit_copy.diff: mpt_buffer_set copies elements that have a finaliser but no
+PATCHED_SET_NOINIT_COPY = True   # docs/C05_set_noinit_copy.diff: mpt_buffer_set copies elements that have a finaliser but no
 #                                   init function byte by byte (detach / reserve of a shared buffer, buffer::copy): finalised twice
-PATCHED_DETACH_NOFINI = False     # docs/C05_detach_nofini.diff: detach of a private immutable buffer to fewer bytes than used,
+PATCHED_DETACH_NOFINI = True     # docs/C05_detach_nofini.diff: detach of a private immutable buffer to fewer bytes than used,
 #                                   traits without finaliser: all used bytes are copied into the smaller block (heap overflow)
 _SWITCHES = ("SET_NOINIT_COPY", "DETACH_NOFINI")
 # testing aid (scratch trees): VERIF_C05_PATCHED="SET_NOINIT_COPY" or "ALL" turns switches on without editing this file
@@ -255,7 +255,8 @@ def sweep_cases(tier="quick", shape="A"):
             # no init function: the library calls no constructor, the script is never read
             set_scripts = few = four = ("-",)
         elif shape == "I" and quick:
-            set_scripts = ("-", "0", "10")
+            set_scripts = ("-", "10")
+            few = four = ("-", "0")
         srcs = ("d",) if nocopy_only else ("c", "d")
         for n in fills:
             # elements of traits without init function are made by the caller: append + construct
@@ -327,7 +328,7 @@ def stale_cases(tier="quick", shape="A"):
         for n in fills:
             fill = ["new", 0, "a", 0, 0] + (["app", 0, n * s] if shape == "F" else ["set", 0, "a", 0, n * s, "c"])
             shrinks = []
-            for k in sorted(set([1, 2, n])):
+            for k in sorted(set([1, n] if quick else [1, 2, n])):
                 if k > n:
                     continue
                 shrinks += [["cut", 0, 0, k * s], ["skip", 0, k * s], ["trim", 0, k * s], ["slen", 0, (n - k) * s],
@@ -343,8 +344,8 @@ def stale_cases(tier="quick", shape="A"):
                 elif sh[0] == "cut" and sh[3] == 0:
                     left = sh[2] // s
                 grows = []
-                for p in range(left, cap + 1):
-                    for ln in (0, 1, 2):
+                for p in range(left, (min(cap, left + 3) if quick else cap) + 1):
+                    for ln in ((0, 1) if quick and shape != "F" else (0, 1, 2)):
                         if p + ln <= cap + 1 and (p > left or ln):
                             grows.append(["ins", 0, p * s, ln * s])
                             grows.append(["set", 0, "a", p * s, ln * s, "d"])
@@ -358,6 +359,48 @@ def stale_cases(tier="quick", shape="A"):
                 out.append(" ".join(["%s%d" % (shape, s), "B%d" % other, "s-"]
                                     + [str(x) for x in fill + sh + ["ins", 0, (left + 1) * s, s] + ["cut", 0, 0, s]
                                        + ["slen", 0, min(cap, left + 3) * s]]))
+    return out
+
+
+def imm_cases(tier="quick", shape="A"):
+    """BufferImmutable: a filled immutable buffer (private / shared), then every operation that looks at the flag (detach to
+    every size, reserve, insert, set_length, unique_array insert / resize) at every element count"""
+    out = []
+    quick = tier == "quick"
+    if shape == "I" and not PATCHED_DETACH_NOFINI:
+        return out
+    nocopy_only = shape == "F" and not PATCHED_SET_NOINIT_COPY
+    for s in ((16,) if quick else (8, 16, 24)):
+        other = {8: 16, 16: 24, 24: 8}[s]
+        cap = 64 // s
+        for flags in ((3,) if nocopy_only else (1, 3)):
+            for n in range(0, cap + 1):
+                fill = ["new", 0, "a", 0, flags] + (["app", 0, n * s] if shape == "F" else ["set", 0, "a", 0, n * s, "c"])
+                for sharedp in (0, 1):
+                    pre = fill + (["cln", 1, 0] if sharedp else [])
+                    tail = []
+                    for ln in range(0, cap + 3):
+                        tail.append(["det", 0, ln * s])
+                        tail.append(["res", 0, "a", ln * s])
+                        tail.append(["slen", 0, ln * s])
+                        tail.append(["uins", 0, ln])
+                        tail.append(["ures", 0, ln])
+                        tail.append(["ins", 0, ln * s, s])
+                    tail.append(["det", 0, 20 * s])
+                    tail.append(["res", 0, "b", other])
+                    for t in tail:
+                        if nocopy_only and t[0] == "res" and sharedp:
+                            continue
+                        out.append(" ".join(["%s%d" % (shape, s), "B%d" % other, "s-"] + [str(x) for x in pre + t + ["det", 0, s]]))
+            # a block of 192 bytes, detached to sizes that get a smaller block (64 bytes)
+            big = 192 // s
+            for n in (big // 2 - 1, big // 2 + 1, big):
+                fill = ["new", 0, "a", 160, flags] + (["app", 0, n * s] if shape == "F" else ["set", 0, "a", 0, n * s, "d"])
+                for sharedp in (0, 1):
+                    pre = fill + (["cln", 1, 0] if sharedp else [])
+                    for t in (["det", 0, 0], ["det", 0, s], ["det", 0, 64], ["det", 0, 64 + s], ["det", 0, n * s],
+                              ["ures", 0, 1], ["uins", 0, 0]):
+                        out.append(" ".join(["%s%d" % (shape, s), "B%d" % other, "s-"] + [str(x) for x in pre + t]))
     return out
 
 
@@ -376,7 +419,8 @@ class C05(DiffProperty):
                        # fresh heap memory is never zero (a zero slot is the empty element of traits without init)
                        + ":max_malloc_fill_size=1048576:malloc_fill_byte=190")
     extra_harness_flags = ["-fno-sanitize=vptr"]
-    rule = ("a case = element sizes of the two harness traits (8/16/24) or a library element type (identifier, array, metatype "
+    rule = ("a case = SHAPE of the two harness traits (A init+fini / F fini only, the shape of reference_array<T> / I init only) "
+            "and their element sizes (8/16/24) or a library element type (identifier, array, metatype "
             "reference, config item, command) + script of failing constructor calls + a history over 3 handles of "
             "new(len,flags immutable/nocopy) / mpt_array_reserve(same type, other type, raw) / mpt_buffer_set(with and without source "
             "elements) / mpt_buffer_insert+construct / mpt_buffer_cut / vtable detach / mpt_array_clone (share) / release / C++ "
@@ -385,21 +429,40 @@ class C05(DiffProperty):
             "for 8) x unshared/shared x one operation at EVERY element position and length inside, at the end of, behind the data "
             "and behind the buffer, each with 4-5 constructor-failure scripts, plus unique_array from the empty array and every "
             "empty/filled pattern of <= 4 items for compact, plus 2500 random histories (<= 14 ops, positions drawn around used "
-            "and capacity, 4% misaligned) with harness traits and 830 with library element types; thorough: full sweep + 60000 + "
-            "20000 random histories (<= 25 ops); a case is non-trivial when it runs at least one operation (all are); "
-            "distinct = distinct case text")
+            "and capacity, 4% misaligned) with harness traits and 830 with library element types; the same sweep for shape F "
+            "(8/16-byte elements, elements made by the caller through append) and shape I (16-byte elements); STALE-BYTES "
+            "histories for every shape = n elements, then every way to remove some (cut at the front / in the middle / at the end, "
+            "cut ending exactly at the end of the data, skip, trim, set_length, resize: a memmove leaves a byte copy of the last "
+            "moved element behind _used, a finaliser leaves a finalised pattern), then every operation that makes slots behind the "
+            "used data content again (insert strictly beyond the end, set beyond the end, set_length, unique_array insert/resize) "
+            "at the positions up to 3 behind the end, and a two-round shrink/grow; IMMUTABLE buffers (private/shared, 64 and 192 "
+            "bytes) x every operation that looks at the flag x every size; 800 + 500 random histories of shapes F and I; "
+            "thorough: full sweeps + 60000 + 20000 + 20000 + 20000 random histories (<= 25 ops); cases that need a patch of "
+            "docs/C05_*.diff are left out while its PATCHED_ switch is off (shape F: source data for mpt_buffer_set, "
+            "buffer::copy, shared or immutable buffers without BufferNoCopy; shape I: immutable buffers); a case is non-trivial "
+            "when it runs at least one operation (all are); distinct = distinct case text")
     modelled = ("mptcore/array/buffer_set.c, buffer_cut.c, buffer_insert.c, buffer_alloc.c (alloc size, get_flags, addref, unref, detach), "
                 "array_reserve.c, array_clone.c; mpt++/array.cpp buffer::trim/skip/append/copy/move; mptcore/array.h "
                 "content<T>::set_length, unique_array<T>::reserve/insert/resize transcribed in coq/C05/TypedModel.v (byte offsets, "
-                "element slots carrying tokens, ghost event log, constructor failure script). Element types of the library "
+                "element slots carrying tokens, ghost event log, constructor failure script), with the SHAPE of the content traits "
+                "as a parameter (which branches run the init loop / the zero fill / the finaliser loops); mpt_buffer_set and the "
+                "move path of detach AS PATCHED by docs/C05_set_noinit_copy.diff and docs/C05_detach_nofini.diff; "
+                "unique_array<T>::reserve as of /repo 3c052e7/3169847. Element types of the library "
                 "(array_traits.c, meta_reference_traits.c, config_item_traits.c, command_traits.c, identifier.c) and "
                 "item_array<T>::compact are NOT modelled individually: they are driven through the same histories / a self-checking "
                 "scenario with ASan + LeakSanitizer + reference counters as observers (events and tokens compared only for the "
                 "harness traits). Not modelled: raw byte contents, compatible-but-different traits (same fini and size), traits "
-                "without init (reference_array), malloc failure, mpt_array_set/mpt_array_slice/append/insert (C04), _mpt_buffer_map")
+                "with neither init nor fini (plain data: C04), malloc failure, mpt_array_set/mpt_array_slice/append/insert (C04), "
+                "_mpt_buffer_map")
     trusted = ["harness/c05_typed.cpp: traits whose init/fini log events and store magic+token in the element; state read back from "
                "the data area independently of the library; mpt++/array.cpp compiled into the harness with -fno-sanitize=vptr "
                "(buffers carry the C vtable)",
+               "shape F: the all-zero pattern is the empty element (fini on it is silent); the harness takes note of every zero "
+               "slot inside the used data right after the library call that produced it (it becomes element <next token>, event "
+               "i<t>), the model logs the same at the memset; fresh heap memory is never zero (ASAN malloc_fill_byte). Shape I: "
+               "nothing is printed when an element leaves the content; the abandon steps of the model are ghosts (not compared), "
+               "the log is judged by monitor_nf (= the full monitor on the log completed by the abandon events, theorem "
+               "C05_monitor_nofini_complete)",
                "the specification monitor of coq/C05/TypedSpec.v is run (extracted) on the log printed by the IMPLEMENTATION; "
                "ml/c05_driver.ml parses that log",
                "allocation header 64 bytes / page 128 bytes are constants of the driver (a change shows as a size difference)"]
@@ -409,18 +472,42 @@ class C05(DiffProperty):
                   "destructor or copy on non-element memory - and every initialised token is finalised), "
                   "C05_stored_is_live_at_every_point (after every prefix: live tokens = used element slots of the allocated buffers, each "
                   "once), C05_shared_copy_constructs (detach of a shared typed buffer logs exactly one Init-from per element, fresh "
-                  "tokens, source untouched), C05_step_never_faults, C05_monitor_sound; the model is tied to the code on every run by "
+                  "tokens, source untouched; traits with init function), C05_shared_noinit_refused (fini-only traits: detach of a shared "
+                  "buffer with elements is refused and nothing changes, no bytes duplicated), C05_step_never_faults, "
+                  "C05_monitor_sound, C05_monitor_nofini_complete - every theorem over an environment e holds for all three shapes of "
+                  "the content traits (eshape e: init+fini, fini only with zero-filled gaps adopted as empty elements, init only "
+                  "with ghost abandon steps); the model is tied to the code on every run by "
                   "differential execution of histories (events compared one by one, state read back, live set empty at the end) under "
                   "ASan/UBSan/LeakSanitizer, and the extracted monitor judges the log the implementation printed")
     level_note = ("trusted: Coq kernel; hand transcription of the C/C++ loops (validated by the correspondence run, not verified); "
                   "extraction and OCaml driver; harness. Theorems are closed under the global context. Library element types and "
                   "item_array::compact are covered at correspondence level only (sanitizers and counters as observers); "
-                  "the theorem about shared copies assumes constructors that succeed and a type that allows copies; traits without "
-                  "init (reference_array, protected by BufferNoCopy) and compatible-but-different traits are out of the model.")
+                  "the theorem about shared copies assumes constructors that succeed and a type that allows copies; "
+                  "compatible-but-different traits and traits with neither init nor fini are out of the model. "
+                  "OPEN in /repo (found with the shapes F and I; the model is the code as patched, the switches PATCHED_SET_NOINIT_COPY / "
+                  "PATCHED_DETACH_NOFINI in props/c05.py keep the triggering cases out until the patches are committed): "
+                  "mpt_buffer_set copies elements that have a finaliser but no init function byte by byte - detach / "
+                  "mpt_array_reserve of a shared or immutable buffer without BufferNoCopy and buffer::copy finalise every element "
+                  "twice (docs/C05_set_noinit_copy.diff, docs/C05_replay_set_noinit_copy.json); detach of a private immutable buffer "
+                  "to fewer bytes than used copies ALL used bytes into the smaller block when the traits have no finaliser - heap "
+                  "overflow, also for arrays of plain typed data (docs/C05_detach_nofini.diff, docs/C05_replay_detach_nofini.json).")
     technique = ("Coq invariant proof over an event-logging heap model (closed forms of the byte-offset loops, frame lemma per operation, "
                  "fold over histories) + runtime monitor extracted from the Coq specification + differential correspondence check")
     assumptions = ["malloc succeeds", "element constructors/destructors of the harness traits have no effect besides the log and the element bytes",
+                   "traits without init function: the all-zero byte pattern is a valid empty element whose finaliser does nothing "
+                   "(mpt::reference<T> holding a null pointer)",
                    "allocation header of _mpt_buffer_alloc is 64 bytes, page 128 bytes (checked by the size observable)"]
+
+    def corpus(self):
+        """a corpus line `@SET_NOINIT_COPY <case>` is used only when all the named PATCHED_ switches are on"""
+        out = []
+        for line in DiffProperty.corpus(self):
+            if line.startswith("@"):
+                need, line = line[1:].split(None, 1)
+                if not all(globals().get("PATCHED_" + n, False) for n in need.split(",")):
+                    continue
+            out.append(line)
+        return out
 
     def split(self, case):
         t = case.split()
@@ -481,16 +568,16 @@ class C05(DiffProperty):
     def generate(self, rng, tier):
         cases = []
         for sh in SHAPES:
-            cases += sweep_cases(tier, sh) + stale_cases(tier, sh)
+            cases += sweep_cases(tier, sh) + stale_cases(tier, sh) + imm_cases(tier, sh)
         n = 2500 if tier == "quick" else 60000
         mo = 14 if tier == "quick" else 25
         for i in range(n):
             cases.append(gen_case(rng, maxops=mo))
         for i in range(n // 3):
             cases.append(gen_case(rng, maxops=mo, lib=LIBTYPES[i % len(LIBTYPES)]))
-        for i in range(1000 if tier == "quick" else 20000):
+        for i in range(800 if tier == "quick" else 20000):
             cases.append(gen_case(rng, maxops=mo, shape="F"))
-        for i in range(700 if tier == "quick" else 20000):
+        for i in range(500 if tier == "quick" else 20000):
             cases.append(gen_case(rng, maxops=mo, shape="I"))
         return cases
 
